@@ -10,9 +10,13 @@ package main
 
 import (
 	"bytes"
+	"crypto/ecdsa"
+	"crypto/ed25519"
+	"crypto/rsa"
 	"crypto/sha1"
 	"crypto/sha256"
 	stdx509 "crypto/x509"
+	stdasn1 "encoding/asn1"
 	"encoding/base64"
 	"encoding/binary"
 	"encoding/hex"
@@ -62,16 +66,45 @@ type caSpec struct {
 	org  []string
 	key  string
 	slot int // model slot 0..2, or -1
+	// look != "": the subject is ca3's name in another DER encoding (never a model issuer)
+	look string
+}
+
+// rawName encodes Name ::= SEQUENCE OF SET OF SEQUENCE{type, value} with the
+// standard library; tag selects the string type of every value (19
+// PrintableString, 12 UTF8String).
+type stdATV struct {
+	Type  stdasn1.ObjectIdentifier
+	Value stdasn1.RawValue
+}
+type stdRDNSET []stdATV
+
+func rawName(tag int, atvs ...[2]string) []byte {
+	oids := map[string]stdasn1.ObjectIdentifier{"CN": {2, 5, 4, 3}, "O": {2, 5, 4, 10}}
+	var seq []stdRDNSET
+	for _, a := range atvs {
+		seq = append(seq, stdRDNSET{{Type: oids[a[0]], Value: stdasn1.RawValue{Tag: tag, Bytes: []byte(a[1])}}})
+	}
+	der, err := stdasn1.Marshal(seq)
+	if err != nil {
+		panic(err)
+	}
+	return der
 }
 
 var caSpecs = []caSpec{
-	{"ca1", "Rev CA 1", nil, "c15-ca1", 0},
-	{"ca2", "Rev CA 2", []string{"Org"}, "c15-ca2", 1},
-	{"ca3", "Rev CA 1", []string{"Org"}, "c15-ca3", 2}, // shares its CN with ca1, its O with ca2
-	{"cax", "Unrelated CA", nil, "c15-cax", -1},
-	{"ca1b", "Rev CA 1", nil, "c15-ca1b", -1},  // same name as ca1, other key
-	{"ca1c", "Renamed CA", nil, "c15-ca1", -1}, // same key as ca1, other name
+	{"ca1", "Rev CA 1", nil, "c15-ca1", 0, ""},
+	{"ca2", "Rev CA 2", []string{"Org"}, "c15-ca2", 1, ""},
+	{"ca3", "Rev CA 1", []string{"Org"}, "c15-ca3", 2, ""}, // shares its CN with ca1, its O with ca2
+	{"cax", "Unrelated CA", nil, "c15-cax", -1, ""},
+	{"ca1b", "Rev CA 1", nil, "c15-ca1b", -1, ""},  // same name as ca1, other key
+	{"ca1c", "Renamed CA", nil, "c15-ca1", -1, ""}, // same key as ca1, other name
+	// ca3's name ("CN=Rev CA 1, O=Org", PrintableString values) in two other DER encodings, own keys
+	{"ca3u", "Rev CA 1", []string{"Org"}, "c15-ca3u", -1, "string type UTF8String instead of PrintableString"},
+	{"ca3r", "Rev CA 1", []string{"Org"}, "c15-ca3r", -1, "RDN order O,CN instead of CN,O"},
 }
+
+const lookSlot = 2 // the model slot (ca3) the look-alike names imitate
 
 // qcert is one query certificate with the features the oracle needs, all read
 // from the DER with the standard library (not with zcrypto).
@@ -87,6 +120,8 @@ type qcert struct {
 	IssCN    string
 	IssOrg   []string
 	IssHex   string // hex SHA-256 of the issuer's SPKI (set once all fixtures exist)
+	KeyKind  string // own key, from crypto/x509
+	Look     string // != "": the issuer name is ca3's in another DER encoding (how)
 }
 
 func (q *qcert) issuerSPKIHash() [32]byte { return q.Issuer.SPKIHash }
@@ -101,7 +136,9 @@ type fixtures struct {
 	crlsetBlocked [2][32]byte // SPKI hashes: ca1's key, the rsa leaf/root key
 	// OneCRL subject/pubKeyHash pool: 0 = (Blocked RSA, rsa1024), 1 = (Blocked EC, p256), 2 = (Blocked RSA, rsa1024b): same
 	// subject as 0 with another key (a re-keyed certificate), 3 = (Other EC, p256): same key as 1 under another subject
-	oneBlocked [4]struct {
+	// 4 = (Blocked Ed, Ed25519 key), 5 = (Blocked P384, P-384 key): key types whose SubjectPublicKeyInfo the
+	// library has to re-marshal to the bytes in the certificate
+	oneBlocked [6]struct {
 		subj []byte
 		hash [32]byte
 	}
@@ -114,6 +151,16 @@ func mkQ(name string, c *fx.Cert, issuer *qcert) *qcert {
 	}
 	q := &qcert{Name: name, Z: c.X, DER: c.DER, IssuerDN: string(std.RawIssuer), SubjDN: string(std.RawSubject),
 		Serial: std.SerialNumber, SPKIHash: sha256.Sum256(std.RawSubjectPublicKeyInfo), IssCN: std.Issuer.CommonName, IssOrg: std.Issuer.Organization}
+	switch k := std.PublicKey.(type) {
+	case *rsa.PublicKey:
+		q.KeyKind = fmt.Sprintf("RSA-%d", k.N.BitLen())
+	case *ecdsa.PublicKey:
+		q.KeyKind = "ECDSA " + k.Curve.Params().Name
+	case ed25519.PublicKey:
+		q.KeyKind = "Ed25519"
+	default:
+		q.KeyKind = "other"
+	}
 	q.Issuer = issuer
 	if issuer == nil {
 		q.Issuer = q
@@ -131,9 +178,18 @@ func buildFixtures() *fixtures {
 	for i, cs := range caSpecs {
 		cs := cs
 		c := fx.MustMint(fx.CertSpec{CN: cs.cn, Key: cs.key, IsCA: true, Serial: int64(1000 + i),
-			Tweak: func(t *x509.Certificate) { t.Subject = pkix.Name{CommonName: cs.cn, Organization: cs.org} }}, nil)
+			Tweak: func(t *x509.Certificate) {
+				t.Subject = pkix.Name{CommonName: cs.cn, Organization: cs.org}
+				switch cs.id {
+				case "ca3u":
+					t.RawSubject = rawName(12, [2]string{"CN", cs.cn}, [2]string{"O", cs.org[0]})
+				case "ca3r":
+					t.RawSubject = rawName(19, [2]string{"O", cs.org[0]}, [2]string{"CN", cs.cn})
+				}
+			}}, nil)
 		fxCA[cs.id] = c
 		q := mkQ(cs.id, c, nil)
+		q.Look = cs.look
 		f.cas[cs.id] = q
 		if cs.slot >= 0 {
 			f.slotCA[cs.slot] = q
@@ -144,9 +200,13 @@ func buildFixtures() *fixtures {
 	for _, cs := range caSpecs {
 		for si, s := range all {
 			s := s
+			if cs.look != "" && si != 0 && si != 3 && si != len(all)-1 {
+				continue // look-alike issuers: serials 1, 2^64 and the unlisted one
+			}
 			name := fmt.Sprintf("leaf/%s/%s", cs.id, s)
 			c := fx.MustMint(fx.CertSpec{CN: name, Key: "c15-leaf", Tweak: func(t *x509.Certificate) { t.SerialNumber = s }}, fxCA[cs.id])
 			q := mkQ(name, c, f.cas[cs.id])
+			q.Look = cs.look
 			f.leaf[fmt.Sprintf("%s/%d", cs.id, si)] = q
 			add(q)
 		}
@@ -167,6 +227,8 @@ func buildFixtures() *fixtures {
 		{"blocked-ec", "Blocked EC", "p256", "cax"},
 		{"blocked-ec/other-key", "Blocked EC", "p256b", "cax"},
 		{"blocked-ec/other-subject", "Other EC", "p256", "ca2"},
+		{"blocked-ed", "Blocked Ed", "c15-ed-blocked", "cax"},
+		{"blocked-p384", "Blocked P384", "p384", "cax"},
 	} {
 		c := fx.MustMint(fx.CertSpec{CN: b.cn, Key: b.key, Serial: 77}, fxCA[b.ca])
 		add(mkQ(b.name, c, f.cas[b.ca]))
@@ -186,6 +248,18 @@ func buildFixtures() *fixtures {
 	f.oneBlocked[1].subj, f.oneBlocked[1].hash = []byte(f.byName["blocked-ec"].SubjDN), f.byName["blocked-ec"].SPKIHash
 	f.oneBlocked[2].subj, f.oneBlocked[2].hash = []byte(f.byName["blocked-rsa/other-key"].SubjDN), f.byName["blocked-rsa/other-key"].SPKIHash
 	f.oneBlocked[3].subj, f.oneBlocked[3].hash = []byte(f.byName["blocked-ec/other-subject"].SubjDN), f.byName["blocked-ec/other-subject"].SPKIHash
+	f.oneBlocked[4].subj, f.oneBlocked[4].hash = []byte(f.byName["blocked-ed"].SubjDN), f.byName["blocked-ed"].SPKIHash
+	f.oneBlocked[5].subj, f.oneBlocked[5].hash = []byte(f.byName["blocked-p384"].SubjDN), f.byName["blocked-p384"].SPKIHash
+	if f.byName["blocked-ed"].KeyKind != "Ed25519" || f.byName["blocked-p384"].KeyKind != "ECDSA P-384" {
+		panic("fixture keys are not of the intended kinds: " + f.byName["blocked-ed"].KeyKind + ", " + f.byName["blocked-p384"].KeyKind)
+	}
+	// the look-alike names really are other DER with ca3's attribute values
+	for _, id := range []string{"ca3u", "ca3r"} {
+		q := f.cas[id]
+		if q.SubjDN == f.cas["ca3"].SubjDN || q.IssCN != f.cas["ca3"].IssCN || !eqOrg(q.IssOrg, f.cas["ca3"].IssOrg) {
+			panic("look-alike issuer " + id + " is not a re-encoding of ca3's name")
+		}
+	}
 	return f
 }
 
@@ -197,7 +271,32 @@ type Model struct {
 	Format  string  `json:"format"` // crlset | onecrl | sst
 	Issuers [][]int `json:"issuers"`
 	Blocked int     `json:"blocked_mask"` // bit i: blocked key i of the format's pool
-	Layout  int     `json:"layout"`       // 0: grouped in slot order; 1: reversed slot order, round-robin interleaved
+	// 0: grouped in slot order; 1: reversed slot order, round-robin interleaved;
+	// 2: as 0 and (CRLSet) the first parent with >=2 serials is written as TWO blocks with the same parent hash, its
+	// first serial in place and the remaining ones in a block at the end of the file; (OneCRL) the first issuer/serial
+	// record carries "enabled": false
+	Layout int `json:"layout"`
+}
+
+// splitSlot: the slot that layout 2 of a CRLSet writes as two blocks, or -1.
+func (m *Model) splitSlot() int {
+	if m.Format != "crlset" || m.Layout != 2 {
+		return -1
+	}
+	for s, l := range m.Issuers {
+		if len(l) >= 2 {
+			return s
+		}
+	}
+	return -1
+}
+
+// disabledIdx: index (in flat order) of the OneCRL record written with enabled:false, or -1.
+func (m *Model) disabledIdx() int {
+	if m.Format != "onecrl" || m.Layout != 2 || len(m.flat()) == 0 {
+		return -1
+	}
+	return 0 // the FIRST record: everything after it must be unaffected
 }
 
 type listed struct {
@@ -207,7 +306,7 @@ type listed struct {
 // flat returns the (slot, serial) pairs in the order the encoder writes them.
 func (m *Model) flat() []listed {
 	var out []listed
-	if m.Layout == 0 {
+	if m.Layout != 1 {
 		for s, l := range m.Issuers {
 			for _, si := range l {
 				out = append(out, listed{s, si})
@@ -304,11 +403,7 @@ func encCRLSet(f *fixtures, m *Model) []byte {
 	var b bytes.Buffer
 	binary.Write(&b, binary.LittleEndian, uint16(len(hj)))
 	b.Write(hj)
-	for _, s := range order {
-		l := m.Issuers[s]
-		if l == nil {
-			continue
-		}
+	block := func(s int, l []int) {
 		b.Write(f.slotCA[s].SPKIHash[:])
 		binary.Write(&b, binary.LittleEndian, uint32(len(l)))
 		for _, si := range l {
@@ -316,6 +411,20 @@ func encCRLSet(f *fixtures, m *Model) []byte {
 			b.WriteByte(byte(len(sb)))
 			b.Write(sb)
 		}
+	}
+	split := m.splitSlot()
+	for _, s := range order {
+		l := m.Issuers[s]
+		if l == nil {
+			continue
+		}
+		if s == split {
+			l = l[:1]
+		}
+		block(s, l)
+	}
+	if split >= 0 {
+		block(split, m.Issuers[split][1:])
 	}
 	return b.Bytes()
 }
@@ -365,13 +474,15 @@ func encOneCRL(f *fixtures, m *Model) []byte {
 			recs = append(recs, blocked[i])
 		}
 	}
+	dis := m.disabledIdx()
 	for i, e := range m.flat() {
 		r := mk(i)
+		r.Enabled = i != dis
 		r.IssuerName = base64.StdEncoding.EncodeToString([]byte(f.slotCA[e.slot].SubjDN))
 		r.SerialNumber = base64.StdEncoding.EncodeToString(derIntContent(serialVals[e.sidx]))
 		recs = append(recs, r)
 	}
-	if m.Layout == 0 {
+	if m.Layout != 1 {
 		recs = append(recs, blocked...)
 	}
 	if recs == nil {
@@ -518,10 +629,26 @@ func evalCRLSet(x *ctxEval, m *Model, enc []byte) (out []verdict) {
 		if il.SPKIHash != hx {
 			out = append(out, verdict{"crlset.Parse: IssuerList.SPKIHash differs from its key", il.SPKIHash, ""})
 		}
-		ok := len(il.Entries) == len(l)
-		for i := 0; ok && i < len(l); i++ {
-			if il.Entries[i] == nil || il.Entries[i].SerialNumber == nil || il.Entries[i].SerialNumber.Cmp(serialVals[l[i]]) != 0 {
-				ok = false
+		sameList := func(l []int) bool {
+			ok := len(il.Entries) == len(l)
+			for i := 0; ok && i < len(l); i++ {
+				if il.Entries[i] == nil || il.Entries[i].SerialNumber == nil || il.Entries[i].SerialNumber.Cmp(serialVals[l[i]]) != 0 {
+					ok = false
+				}
+			}
+			return ok
+		}
+		ok := sameList(l)
+		if s == m.splitSlot() {
+			// one parent in two blocks: Chrome's generator never writes that and the
+			// statement only speaks of well-formed sets. The union or the later block
+			// alone (what Chrome's own index keeps) are both accepted and counted.
+			switch {
+			case ok:
+				x.h["crlset(parent in two blocks): Parse reports the union"]++
+			case sameList(l[1:]):
+				ok = true
+				x.h["crlset(parent in two blocks): Parse reports the later block only"]++
 			}
 		}
 		if !ok {
@@ -563,9 +690,10 @@ func evalCRLSet(x *ctxEval, m *Model, enc []byte) (out []verdict) {
 	x.h["crlset:parsed≙model"]++
 
 	// membership. The statement: "by issuer SPKI hash and serial or blocked SPKI".
-	// Which SPKI is looked up in the blocked list (the issuer's, handed to Check,
-	// or the certificate's own) is not said: readings A (issuer key), B (own key),
-	// C (either) are all accepted, but one of them has to explain the whole model.
+	// The blocked list is matched against the SPKI hash handed to Check, which the
+	// API names issuerSPKIHash and verifier.go fills with the parent's SPKI
+	// fingerprint: the ISSUER-key reading, pinned for the whole run. A certificate
+	// whose own key is blocked is found when Check is asked about its children.
 	blockedHash := func(h [32]byte) bool {
 		for i := 0; i < 2; i++ {
 			if m.Blocked&(1<<i) != 0 && f.crlsetBlocked[i] == h {
@@ -574,16 +702,18 @@ func evalCRLSet(x *ctxEval, m *Model, enc []byte) (out []verdict) {
 		}
 		return false
 	}
-	misA, misB, misC := 0, 0, 0
-	var amb []string
+	split := m.splitSlot()
 	for _, q := range f.queries {
 		ih := q.issuerSPKIHash()
-		listedHS, issuerListed := false, false
+		listedHS, issuerListed, earlierBlockOnly := false, false, false
 		for s := range m.Issuers {
 			if m.Issuers[s] != nil && f.slotCA[s].SPKIHash == ih {
 				issuerListed = true
 				if m.has(s, q.Serial) {
 					listedHS = true
+					if s == split && serialVals[m.Issuers[s][0]].Cmp(q.Serial) == 0 {
+						earlierBlockOnly = true
+					}
 				}
 			}
 		}
@@ -604,7 +734,7 @@ func evalCRLSet(x *ctxEval, m *Model, enc []byte) (out []verdict) {
 		case issB:
 			cat = "issuer key is a blocked SPKI"
 		case ownB:
-			cat = "own key is a blocked SPKI"
+			cat = "own key is a blocked SPKI, issuer key is not"
 		case issuerListed:
 			cat = "issuer listed, other serial"
 		case nameListed(f, m, q):
@@ -612,40 +742,18 @@ func evalCRLSet(x *ctxEval, m *Model, enc []byte) (out []verdict) {
 		case m.serialAnywhere(q.Serial):
 			cat = "serial listed under another issuer"
 		}
-		wantA, wantB2, wantC := listedHS || issB, listedHS || ownB, listedHS || issB || ownB
-		if wantA == wantB2 {
-			// all readings agree
-			if rev != wantA {
-				out = append(out, verdict{fmt.Sprintf("crlset.Check: want revoked=%v got %v [%s]", wantA, rev, cat), "", q.Name})
-			} else if rev && listedHS && (got.SerialNumber == nil || got.SerialNumber.Cmp(q.Serial) != 0) {
-				out = append(out, verdict{"crlset.Check: returned entry carries another serial", "", q.Name})
-			}
-			x.count("crlset: ", cat, rev)
+		if earlierBlockOnly && !issB {
+			// listed only in the earlier of two blocks of one parent: see Parse above
+			x.count("crlset(parent in two blocks): ", "serial only in the earlier block", rev)
 			continue
 		}
-		amb = append(amb, cat+revStr(rev))
-		if rev != wantA {
-			misA++
+		want := listedHS || issB
+		if rev != want {
+			out = append(out, verdict{fmt.Sprintf("crlset.Check: want revoked=%v got %v [%s]", want, rev, cat), "", q.Name})
+		} else if rev && listedHS && !issB && (got.SerialNumber == nil || got.SerialNumber.Cmp(q.Serial) != 0) {
+			out = append(out, verdict{"crlset.Check: returned entry carries another serial", "", q.Name})
 		}
-		if rev != wantB2 {
-			misB++
-		}
-		if rev != wantC {
-			misC++
-		}
-		x.count("crlset(blocked reading open): ", cat, rev)
-	}
-	if misA > 0 && misB > 0 && misC > 0 {
-		set := map[string]bool{}
-		for _, a := range amb {
-			set[a] = true
-		}
-		var ks []string
-		for k := range set {
-			ks = append(ks, k)
-		}
-		sort.Strings(ks)
-		out = append(out, verdict{"crlset.Check: blocked SPKIs are honoured under no reading (issuer key / own key / either): " + strings.Join(ks, "; "), fmt.Sprintf("mismatches: issuer-key reading %d, own-key reading %d, either %d", misA, misB, misC), ""})
+		x.count("crlset: ", cat, rev)
 	}
 	return out
 }
@@ -672,6 +780,10 @@ func nameCategory(f *fixtures, m *Model, q *qcert) (listedNS bool, cat string) {
 		}
 	}
 	switch {
+	case q.Look != "" && !listedNS && m.Issuers[lookSlot] != nil && m.has(lookSlot, q.Serial):
+		cat = "NOT listed: issuer DER differs from a listed issuer+serial only by " + q.Look
+	case q.Look != "" && !listedNS && m.Issuers[lookSlot] != nil:
+		cat = "issuer DER differs from a listed issuer only by its encoding, other serial"
 	case listedNS && keyDiffers:
 		cat = "listed (issuer name + serial), issuer key differs"
 	case listedNS:
@@ -766,7 +878,7 @@ func evalOneCRL(x *ctxEval, m *Model, enc []byte) (out []verdict) {
 				ss = append(ss, e.SerialNumber)
 				// record metadata: not named by the statement, information only
 				var idx int
-				if _, err := fmt.Sscanf(e.ID, "c15-%04d", &idx); err != nil || !e.Enabled ||
+				if _, err := fmt.Sscanf(e.ID, "c15-%04d", &idx); err != nil || e.Enabled != (idx != m.disabledIdx()) ||
 					!e.LastModified.Equal(time.Unix((oneBaseMillis+5000+int64(idx)*1000)/1000, 0)) || !e.Schema.Equal(time.Unix((oneBaseMillis+int64(idx)*1000)/1000, 0)) {
 					metaOK = false
 				}
@@ -803,6 +915,11 @@ func evalOneCRL(x *ctxEval, m *Model, enc []byte) (out []verdict) {
 	}
 	x.h["onecrl:parsed≙model"]++
 
+	dis := m.disabledIdx()
+	var disRec listed
+	if dis >= 0 {
+		disRec = m.flat()[dis]
+	}
 	for _, q := range f.queries {
 		listedNS, cat := nameCategory(f, m, q)
 		blk, subjOnly, keyOnly := false, false, false
@@ -822,7 +939,7 @@ func evalOneCRL(x *ctxEval, m *Model, enc []byte) (out []verdict) {
 		}
 		switch {
 		case blk:
-			cat = "blocked subject + key hash (" + keyKind(q) + ")"
+			cat = "blocked subject + key hash (" + q.KeyKind + " key)"
 		case listedNS:
 		case subjOnly:
 			cat = "blocked subject, other key"
@@ -837,6 +954,12 @@ func evalOneCRL(x *ctxEval, m *Model, enc []byte) (out []verdict) {
 		}
 		x.checks++
 		rev := got != nil
+		if dis >= 0 && !blk && listedNS && f.slotCA[disRec.slot].SubjDN == q.IssuerDN && serialVals[disRec.sidx].Cmp(q.Serial) == 0 {
+			// the record that lists it says "enabled": false; the statement does not
+			// say whether such a record revokes: the answer is recorded
+			x.count("onecrl(enabled:false): ", "listed by the disabled record only", rev)
+			continue
+		}
 		if rev != want {
 			out = append(out, verdict{fmt.Sprintf("onecrl.Check: want revoked=%v got %v [%s]", want, rev, cat), "", q.Name})
 		} else if rev && !blk && (got.SerialNumber == nil || got.SerialNumber.Cmp(q.Serial) != 0) {
@@ -845,16 +968,6 @@ func evalOneCRL(x *ctxEval, m *Model, enc []byte) (out []verdict) {
 		x.count("onecrl: ", cat, rev)
 	}
 	return out
-}
-
-func keyKind(q *qcert) string {
-	switch q.Z.PublicKeyAlgorithm {
-	case x509.RSA:
-		return "RSA"
-	case x509.ECDSA:
-		return "ECDSA"
-	}
-	return "other"
 }
 
 // --- Microsoft SST
@@ -984,13 +1097,15 @@ func main() {
 			c.Set("serial_lists_per_issuer_sequences", len(sequences))
 			extra = " PLUS (thorough) the same with every ORDER of each serial list (sequences without repetition of length 1..3) x blocked keys {none, both} x layouts {both for OneCRL/SST, slot order for CRLSet}, models already covered by the first part skipped;"
 		}
-		c.Rule("ALL models: 3 issuer slots (ca1 'CN=Rev CA 1', ca2 'CN=Rev CA 2,O=Org', ca3 'CN=Rev CA 1,O=Org'), each absent or carrying a serial list = subset of size 1..3 of {1,255,256,2^64,128} in alphabet order (CRLSet additionally: present with 0 serials) x every subset of the format's blocked keys (CRLSet: 2 SPKI hashes; OneCRL: 4 subject/key-hash records of which two share a subject and two share a key; none for SST) x 2 layouts (slot order grouped / reversed order interleaved, blocked records last/first, SST property elements none|SHA-1|empty+header-lookalike);" + extra + " each model encoded as CRLSet, OneCRL JSON and SST by the harness' own encoders, parsed, compared with the model, then queried with EVERY pool certificate: 6 CAs (3 listed-capable, unrelated, same-name-other-key, same-key-other-name) x serials {alphabet, 77} leaves, the CA certificates, 2 same-issuer+serial twins, RSA/ECDSA blocked-key certificates with same-subject-other-key and same-key-other-subject variants and a self-signed one; a model is non-trivial/distinct by (format, issuer lists, blocked mask, layout)")
+		c.Rule("ALL models: 3 issuer slots (ca1 'CN=Rev CA 1', ca2 'CN=Rev CA 2,O=Org', ca3 'CN=Rev CA 1,O=Org'), each absent or carrying a serial list = subset of size 1..3 of {1,255,256,2^64,128} in alphabet order (CRLSet additionally: present with 0 serials) x every subset of the format's blocked keys (CRLSet: 2 SPKI hashes; OneCRL: 4 RSA-1024/P-256 subject/key-hash records of which two share a subject and two share a key; none for SST) x 2 layouts (slot order grouped / reversed order interleaved, blocked records last/first, SST property elements none|SHA-1|empty+header-lookalike); OneCRL additionally: all 48 blocked masks containing an Ed25519-key and/or a P-384-key record x issuer lists from {[1],[255,2^64],[1,256,128]} per slot x 2 layouts (expected key hash = SHA-256 of the SubjectPublicKeyInfo bytes in the certificate), and every model with the FIRST issuer/serial record written \"enabled\":false (layout 2, answer for that record recorded, all other answers strict); CRLSet additionally: every model with the first parent of >=2 serials written as TWO blocks of the same parent hash (layout 2; union or later-block-only accepted for that parent, serials of the later block and everything else strict);" + extra + " each model encoded as CRLSet, OneCRL JSON and SST by the harness' own encoders, parsed, compared with the model, then queried with EVERY pool certificate: 6 CAs (3 listed-capable, unrelated, same-name-other-key, same-key-other-name) x serials {alphabet, 77} leaves, 2 CAs whose subject is ca3's name in another DER encoding (UTF8String values; RDN order O,CN) with leaves of serials {1, 2^64, 77} -- never listed, expected not revoked in every format --, the CA certificates, 2 same-issuer+serial twins, RSA/ECDSA/Ed25519/P-384 blocked-key certificates with same-subject-other-key and same-key-other-subject variants and a self-signed one; a model is non-trivial/distinct by (format, issuer lists, blocked mask, layout)")
 		c.Assume(
 			"query certificate features (raw issuer/subject names, serial, SPKI) are read with crypto/x509 from the DER; expected membership is computed from the model only",
 			"CRLSet blocked SPKIs are base64(SHA-256(SPKI)) header strings as in Chrome's published sets (testdata/crl-set-6375); Check is called with the hex SHA-256 of the issuer's SPKI (the key form of IssuerLists, as verifier.go does)",
-			"CRLSet: whether the blocked list is matched against the issuer's key, the certificate's own key or either is left open by the statement: all three readings accepted per model, but one must explain every answer; cases where the readings agree are judged strictly",
-			"OneCRL serialNumber = base64 of the DER INTEGER content octets; all records enabled:true; record metadata (id, timestamps, details) is compared but only reported as information",
-			"issuer names of distinct model issuers differ in their attribute values (no string-rendering collisions are constructed)",
+			"CRLSet blocked SPKIs are matched against the hash handed to Check (parameter issuerSPKIHash, filled by verifier.go with the parent's SPKI fingerprint): the issuer-key reading is pinned for the whole run; a certificate whose own key is blocked but whose issuer's is not must NOT be reported",
+			"issuer names are compared as DER (OneCRL issuerName is the base64 DER Name, the SST holds whole certificates): an issuer whose name has the same attribute values in another encoding is another issuer",
+			"a CRLSet with one parent in two blocks and a OneCRL record with enabled:false are outside what the statement fixes: Parse/Check answers for exactly that parent's earlier block / that record are recorded as outcomes, everything else in those sets is judged strictly",
+			"OneCRL serialNumber = base64 of the DER INTEGER content octets; records enabled:true except in layout 2; record metadata (id, timestamps, details) is compared but only reported as information",
+			"issuer names of distinct MODEL issuers differ in their attribute values; rendering collisions are constructed on the query side only (look-alike issuers)",
 			"only well-formed sets (malformed input is C01)",
 		)
 
@@ -1051,6 +1166,21 @@ func main() {
 				allMasks, bothMasks = []int{0, 1, 2, 3, 4, 5, 6, 7, 8, 9, 10, 11, 12, 13, 14, 15}, []int{0, 3, 5, 10, 15}
 			}
 			parts := []part{{"subsets", subsets, allMasks, []int{0, 1}, false}}
+			switch format {
+			case "crlset":
+				// one parent written as two blocks (layout 2)
+				parts = append(parts, part{"parent-in-two-blocks", subsets, []int{0}, []int{2}, false})
+			case "onecrl":
+				// every blocked mask that contains the Ed25519 and/or the P-384 record, on a small issuer-list space
+				// (the blocked path of Check runs before and independently of the issuer lists)
+				var newMasks []int
+				for k := 16; k < 64; k++ {
+					newMasks = append(newMasks, k)
+				}
+				parts = append(parts, part{"ed25519-p384-blocked-keys", [][]int{{0}, {1, 3}, {0, 2, 4}}, newMasks, []int{0, 1}, false})
+				// first issuer/serial record disabled (layout 2)
+				parts = append(parts, part{"disabled-record", subsets, []int{0}, []int{2}, false})
+			}
 			if !c.Quick() {
 				lay := []int{0, 1}
 				if format == "crlset" {
@@ -1090,6 +1220,9 @@ func main() {
 						m := &Model{Format: format, Blocked: bl, Layout: layout, Issuers: [][]int{slotList(k % opts), slotList(k / opts % opts), slotList(k / opts / opts)}}
 						if pt.skipAsc && ascending(m.Issuers[0]) && ascending(m.Issuers[1]) && ascending(m.Issuers[2]) {
 							continue
+						}
+						if layout == 2 && m.splitSlot() < 0 && m.disabledIdx() < 0 {
+							continue // layout 2 changes nothing for this model
 						}
 						vs, enc := evalModel(x, m)
 						if len(vs) > 0 {
